@@ -682,6 +682,9 @@ class Output(object):
 
         if self._address_obj:
             self.script_type = self._address_obj.script_type if script_type is None else script_type
+            if script_type is None and self.script_type in ['p2sh_p2wpkh', 'p2sh_p2wsh', 'p2sh_multisig']:
+                # The locking script of a nested address is a plain pay-to-script-hash script
+                self.script_type = 'p2sh'
             # if not script_type:
             #     script_type = script_type_default(address.witness_type, address.multisig, True)
             self.public_hash = self._address_obj.hash_bytes
